@@ -1,4 +1,282 @@
-import RaptorModel.Model.Basic
+import RaptorModel.Lemmas.CandLemmas
+/-!
+# C16 — the tentative prolongator reproduces the candidate, has unit-norm disjoint columns, and
+prolongator smoothing is an iterated weighted-Jacobi step
+
+Model: `Model/Candidates.lean` (`members`, `coarseCandidate`, `tentative`, `smoothStep`).
+`agg i` is the aggregate of vertex `i` (`none` = not aggregated), `B` the near-null-space
+candidate, `R[c] = coarseCandidate tol agg B c`, `T[i, agg i] = tentative tol agg B i`.
+
+The norm statements are over `ℝ` with `SqrtOp.sqrt = Real.sqrt`, `AbsOp.abs = |·|` (the scoped
+instances of `Raptor.Candidates`, `Lemmas/CandLemmas.lean`); the order/equality tests of the model
+are decided by Mathlib's `Real.decidableLT` / `Real.decidableEq`. The statements about `smoothStep`
+hold over any type `K` carrying the operator classes the model asks for (no algebraic law is used).
+Aggregations, candidates, matrices and prolongators are arbitrary lists (any size, out-of-range
+indices allowed).
+
+## What is proved (numbers = targets of the task)
+
+7.  `foldl_eq_sum`, `foldl_sq_nonneg`, `coarseCandidate_nonneg`.
+8.  `T_R_eq_B` — `T R = B` on every vertex of an aggregate with non-zero restriction, for every
+    `tol < 1` (the sign of `tol` is irrelevant); `T_R_degenerate` — on an aggregate whose
+    restriction is zero both `R[c]` and the entries of `T` are 0.
+9.  `T_unit_norm` — the column of such an aggregate has unit Euclidean norm.
+10. `T_supported`, `T_none`, `T_disjoint`, `members_disjoint`, `members_nodup`.
+11. `smoothStep_length`, `smoothStep_row_length`, `smoothStep_row` (left-fold form, any `K`),
+    `smoothStep_row_sum` (`List.sum` form, over `ℝ`).
+12. `smooth`, `smooth_zero`, `smooth_iter`, `smooth_length`, `smooth_row_length`.
+13. `example`s: `agg = [some 0, some 0, some 1]`, `B = [3, 4, 1]` gives `R[0] = 5`,
+    `T[0,0] = 3/5`, `T[1,0] = 4/5`, and the unit norm of column 0.
+-/
+
 namespace Raptor.C16
-theorem placeholder : (1 : Nat) = 1 := rfl
+open Raptor.Candidates
+
+noncomputable section
+
+/-! ## 7. the candidate norm -/
+
+/-- the model's sum-of-squares left fold is the `List.sum` of the squares -/
+theorem foldl_eq_sum (B : List ℝ) (l : List Nat) :
+    l.foldl (fun s i => s + B.getD i 0 * B.getD i 0) 0
+      = (l.map fun k => B.getD k 0 * B.getD k 0).sum :=
+  Candidates.foldl_eq_sum B l
+
+/-- the sum-of-squares fold is non-negative -/
+theorem foldl_sq_nonneg (B : List ℝ) (l : List Nat) :
+    0 ≤ l.foldl (fun s i => s + B.getD i 0 * B.getD i 0) 0 :=
+  Candidates.foldl_sq_nonneg B l
+
+/-- `R[c] ≥ 0` for every tolerance, aggregation and candidate -/
+theorem coarseCandidate_nonneg (tol : ℝ) (agg : List (Option Nat)) (B : List ℝ) (c : Nat) :
+    0 ≤ coarseCandidate tol agg B c := by
+  rw [coarseCandidate_eq]
+  split
+  · exact Real.sqrt_nonneg _
+  · exact le_refl _
+
+/-! ## 8. `T R = B` -/
+
+/-- `T R = B` on a vertex whose aggregate has non-zero restriction: `T[i,c] * R[c] = B[i]` -/
+theorem T_R_eq_B {tol : ℝ} (agg : List (Option Nat)) (B : List ℝ) {i c : Nat} (htol : tol < 1)
+    (hi : agg.getD i none = some c)
+    (hS : 0 < (members agg c).foldl (fun s k => s + B.getD k 0 * B.getD k 0) 0) :
+    ∃ t, tentative tol agg B i = some (c, t) ∧ t * coarseCandidate tol agg B c = B.getD i 0 := by
+  have hS' : 0 < sqFold B (members agg c) := hS
+  have hne : √(sqFold B (members agg c)) ≠ 0 := (Real.sqrt_pos.mpr hS').ne'
+  refine ⟨_, tentative_pos B htol hi hS', ?_⟩
+  rw [coarseCandidate_pos agg B c htol hS', mul_assoc, one_div, inv_mul_cancel₀ hne, mul_one]
+
+/-- on an aggregate whose restriction is zero, `R[c] = 0` and the entry of `T` is 0 -/
+theorem T_R_degenerate (tol : ℝ) (agg : List (Option Nat)) (B : List ℝ) {i c : Nat}
+    (hi : agg.getD i none = some c)
+    (hS : (members agg c).foldl (fun s k => s + B.getD k 0 * B.getD k 0) 0 = 0) :
+    tentative tol agg B i = some (c, 0) ∧ coarseCandidate tol agg B c = 0 := by
+  have hS' : sqFold B (members agg c) = 0 := hS
+  refine ⟨?_, coarseCandidate_zero tol agg B c hS'⟩
+  rw [tentative_eq tol B hi, if_neg (test_zero (le_of_eq hS')), mul_zero]
+
+/-! ## 9. unit-norm columns -/
+
+/-- the column of an aggregate with non-zero restriction has unit norm: `Σ_{k ∈ c} T[k,c]² = 1` -/
+theorem T_unit_norm {tol : ℝ} (agg : List (Option Nat)) (B : List ℝ) (c : Nat) (htol : tol < 1)
+    (hS : 0 < (members agg c).foldl (fun s k => s + B.getD k 0 * B.getD k 0) 0) :
+    ((members agg c).map fun k => Tval tol agg B k ^ 2).sum = 1 := by
+  have hS' : 0 < sqFold B (members agg c) := hS
+  have hcongr : ∀ k ∈ members agg c,
+      Tval tol agg B k ^ 2 = (B.getD k 0 * B.getD k 0) * (1 / sqFold B (members agg c)) := by
+    intro k hk
+    rw [Tval_of_mem B htol hk hS', mul_pow, div_pow, one_pow, Real.sq_sqrt hS'.le, sq]
+  rw [List.map_congr_left hcongr, List.sum_map_mul_right, ← Candidates.foldl_eq_sum]
+  exact mul_one_div_cancel hS'.ne'
+
+/-- `Tval` is the second component of `tentative` -/
+theorem Tval_eq {tol : ℝ} {agg : List (Option Nat)} {B : List ℝ} {i c : Nat} {t : ℝ}
+    (h : tentative tol agg B i = some (c, t)) : Tval tol agg B i = t := by
+  simp [Tval, h]
+
+/-! ## 10. support of `T` -/
+
+/-- the only entry of row `i` of `T` sits in the column of the aggregate of `i` -/
+theorem T_supported {tol : ℝ} {agg : List (Option Nat)} {B : List ℝ} {i c : Nat} {t : ℝ}
+    (h : tentative tol agg B i = some (c, t)) : agg.getD i none = some c := by
+  cases hagg : agg.getD i none with
+  | none =>
+    simp only [tentative, hagg] at h
+    cases h
+  | some c' =>
+    rw [tentative_eq tol B hagg] at h
+    rw [(Prod.mk.inj (Option.some.inj h)).1]
+
+/-- a vertex that is not aggregated has an empty row in `T` -/
+theorem T_none (tol : ℝ) {agg : List (Option Nat)} (B : List ℝ) {i : Nat}
+    (h : agg.getD i none = none) : tentative tol agg B i = none := by
+  simp only [tentative, h]
+
+/-- a row of `T` meets one column only: the supports of distinct columns are disjoint -/
+theorem T_disjoint {tol : ℝ} {agg : List (Option Nat)} {B : List ℝ} {i c c' : Nat} {t t' : ℝ}
+    (h : tentative tol agg B i = some (c, t)) (h' : tentative tol agg B i = some (c', t')) :
+    c = c' := by
+  rw [h] at h'
+  exact (Prod.mk.inj (Option.some.inj h')).1
+
+/-- the support of column `c` of `T` lies in `members agg c` -/
+theorem T_support_mem {tol : ℝ} {agg : List (Option Nat)} {B : List ℝ} {i c : Nat} {t : ℝ}
+    (h : tentative tol agg B i = some (c, t)) : i ∈ members agg c :=
+  mem_members_of_agg (T_supported h)
+
+/-- distinct aggregates have no common vertex -/
+theorem members_disjoint {agg : List (Option Nat)} {c c' : Nat} (hne : c ≠ c') :
+    List.Disjoint (members agg c) (members agg c') :=
+  Candidates.members_disjoint hne
+
+/-- an aggregate lists each of its vertices once -/
+theorem members_nodup (agg : List (Option Nat)) (c : Nat) : (members agg c).Nodup :=
+  Candidates.members_nodup agg c
+
+end
+
+/-! ## 11. one smoothing step -/
+section Step
+variable {K : Type} [Add K] [Sub K] [Mul K] [Div K] [Zero K] [One K] [AbsOp K] [DecidableEq K]
+
+/-- one smoothing step returns one row per row of `A` -/
+theorem smoothStep_length (A : List (List (Nat × K))) (ω : K) (nc : Nat) (P : List (List K)) :
+    (smoothStep A ω nc P).length = A.length :=
+  Candidates.smoothStep_length A ω nc P
+
+/-- if every row of `P` has `nc` entries, so has every row after one smoothing step -/
+theorem smoothStep_row_length (A : List (List (Nat × K))) (ω : K) {nc : Nat} {P : List (List K)}
+    (hP : ∀ row ∈ P, row.length = nc) : ∀ row ∈ smoothStep A ω nc P, row.length = nc :=
+  Candidates.smoothStep_row_length A ω hP
+
+/-- entry `(i, c)` after one step is `P[i,c] − Σ_e (A[i,e] · ω/|d_i|) · P[e,c]` (left fold) -/
+theorem smoothStep_row (A : List (List (Nat × K))) (ω : K) {nc : Nat} {P : List (List K)}
+    (hP : ∀ row ∈ P, row.length = nc) {i c : Nat} (hi : i < A.length) (hc : c < nc) :
+    let row := A.getD i []
+    let s := row.foldl (fun s e => s + AbsOp.abs e.2) 0
+    let sc := if s = 0 then 0 else (1 / AbsOp.abs s) * ω
+    ((smoothStep A ω nc P).getD i []).getD c 0
+      = (P.getD i []).getD c 0
+        - row.foldl (fun acc e => acc + (e.2 * sc) * ((P.getD e.1 []).getD c 0)) 0 :=
+  smoothStep_entry A ω hP hi hc
+
+end Step
+
+noncomputable section
+
+/-- over `ℝ`: entry `(i, c)` after one step is `P[i,c] − Σ_e A[i,e] · (ω/|d_i|) · P[e,c]` -/
+theorem smoothStep_row_sum (A : List (List (Nat × ℝ))) (ω : ℝ) {nc : Nat} {P : List (List ℝ)}
+    (hP : ∀ row ∈ P, row.length = nc) {i c : Nat} (hi : i < A.length) (hc : c < nc) :
+    ((smoothStep A ω nc P).getD i []).getD c 0
+      = (P.getD i []).getD c 0
+        - ((A.getD i []).map fun e =>
+            (e.2 * rowScale ω (A.getD i [])) * ((P.getD e.1 []).getD c 0)).sum := by
+  rw [smoothStep_entry A ω hP hi hc, apEntry,
+    foldl_add_eq (fun e : Nat × ℝ =>
+      (e.2 * rowScale ω (A.getD i [])) * ((P.getD e.1 []).getD c 0)), zero_add]
+
+/-- over `ℝ` the diagonal `d_i` is the sum of the absolute values of row `i` -/
+theorem absRowSum_eq_sum (row : List (Nat × ℝ)) : absRowSum row = (row.map fun e => |e.2|).sum := by
+  rw [absRowSum]
+  exact (foldl_add_eq (fun e : Nat × ℝ => |e.2|) row 0).trans (zero_add _)
+
+end
+
+/-! ## 12. `k` smoothing steps -/
+section Iter
+variable {K : Type} [Add K] [Sub K] [Mul K] [Div K] [Zero K] [One K] [AbsOp K] [DecidableEq K]
+
+/-- `k` weighted-Jacobi smoothing steps applied to the prolongator `P` -/
+def smooth (A : List (List (Nat × K))) (ω : K) (nc : Nat) (k : Nat) (P : List (List K)) :
+    List (List K) :=
+  (smoothStep A ω nc)^[k] P
+
+/-- zero steps leave the prolongator unchanged -/
+theorem smooth_zero (A : List (List (Nat × K))) (ω : K) (nc : Nat) (P : List (List K)) :
+    smooth A ω nc 0 P = P := rfl
+
+/-- `k + 1` steps are one more `smoothStep` after `k` steps -/
+theorem smooth_iter (A : List (List (Nat × K))) (ω : K) (nc : Nat) (k : Nat) (P : List (List K)) :
+    smooth A ω nc (k + 1) P = smoothStep A ω nc (smooth A ω nc k P) :=
+  Function.iterate_succ_apply' _ _ _
+
+/-- after at least one step the prolongator has one row per row of `A` -/
+theorem smooth_length (A : List (List (Nat × K))) (ω : K) (nc : Nat) (k : Nat)
+    (P : List (List K)) : (smooth A ω nc (k + 1) P).length = A.length := by
+  rw [smooth_iter, smoothStep_length]
+
+/-- the number of rows is preserved by any number of steps when `P` has one row per row of `A` -/
+theorem smooth_length' (A : List (List (Nat × K))) (ω : K) (nc : Nat) (k : Nat)
+    {P : List (List K)} (hP : P.length = A.length) : (smooth A ω nc k P).length = A.length := by
+  cases k with
+  | zero => exact hP
+  | succ k => exact smooth_length A ω nc k P
+
+/-- every row keeps `nc` entries through any number of steps -/
+theorem smooth_row_length (A : List (List (Nat × K))) (ω : K) {nc : Nat} {P : List (List K)}
+    (hP : ∀ row ∈ P, row.length = nc) : ∀ k, ∀ row ∈ smooth A ω nc k P, row.length = nc
+  | 0 => hP
+  | k + 1 => by
+    rw [smooth_iter]
+    exact smoothStep_row_length A ω (smooth_row_length A ω hP k)
+
+/-- entry `(i, c)` after `k + 1` steps, in terms of the prolongator after `k` steps -/
+theorem smooth_row (A : List (List (Nat × K))) (ω : K) {nc : Nat} {P : List (List K)}
+    (hP : ∀ row ∈ P, row.length = nc) (k : Nat) {i c : Nat} (hi : i < A.length) (hc : c < nc) :
+    ((smooth A ω nc (k + 1) P).getD i []).getD c 0
+      = ((smooth A ω nc k P).getD i []).getD c 0
+        - apEntry ω (smooth A ω nc k P) (A.getD i []) c := by
+  rw [smooth_iter]
+  exact smoothStep_entry A ω (smooth_row_length A ω hP k) hi hc
+
+end Iter
+
+/-! ## 13. a concrete aggregation -/
+noncomputable section Examples
+
+/-- aggregate 0 of `[some 0, some 0, some 1]` is `{0, 1}` -/
+example : members [some 0, some 0, some 1] 0 = [0, 1] := by decide
+
+/-- `√25 = 5` -/
+theorem sqrt_25 : √(25 : ℝ) = 5 := by
+  rw [show (25 : ℝ) = 5 ^ 2 by norm_num]
+  exact Real.sqrt_sq (by norm_num)
+
+/-- the squared norm of `B = [3, 4, 1]` on aggregate 0 is 25 -/
+theorem ex_sqFold : sqFold [3, 4, 1] (members [some 0, some 0, some 1] 0) = 25 := by
+  rw [show members [some 0, some 0, some 1] 0 = [0, 1] by decide]
+  norm_num [sqFold]
+
+/-- `R[0] = ‖(3, 4)‖ = 5` with tolerance 0 -/
+example : coarseCandidate (0 : ℝ) [some 0, some 0, some 1] [3, 4, 1] 0 = 5 := by
+  rw [coarseCandidate_pos _ _ _ (by norm_num) (by rw [ex_sqFold]; norm_num), ex_sqFold, sqrt_25]
+
+/-- `R[0] = 5` with tolerance 1/2 as well -/
+example : coarseCandidate (1 / 2 : ℝ) [some 0, some 0, some 1] [3, 4, 1] 0 = 5 := by
+  rw [coarseCandidate_pos _ _ _ (by norm_num) (by rw [ex_sqFold]; norm_num), ex_sqFold, sqrt_25]
+
+/-- `T[0, 0] = 3/5` -/
+example : tentative (0 : ℝ) [some 0, some 0, some 1] [3, 4, 1] 0 = some (0, 3 / 5) := by
+  rw [tentative_pos (c := 0) _ (by norm_num) (by decide) (by rw [ex_sqFold]; norm_num),
+    ex_sqFold, sqrt_25]
+  norm_num
+
+/-- `T[1, 0] = 4/5` -/
+example : tentative (0 : ℝ) [some 0, some 0, some 1] [3, 4, 1] 1 = some (0, 4 / 5) := by
+  rw [tentative_pos (c := 0) _ (by norm_num) (by decide) (by rw [ex_sqFold]; norm_num),
+    ex_sqFold, sqrt_25]
+  norm_num
+
+/-- the column of aggregate 0 has unit norm: `(3/5)² + (4/5)² = 1` (instance of `T_unit_norm`) -/
+example : ((members [some 0, some 0, some 1] 0).map fun k =>
+    Tval (0 : ℝ) [some 0, some 0, some 1] [3, 4, 1] k ^ 2).sum = 1 :=
+  T_unit_norm _ _ 0 (by norm_num) (by
+    have h := ex_sqFold
+    rw [sqFold] at h
+    rw [h]; norm_num)
+
+end Examples
+
+
 end Raptor.C16
